@@ -491,7 +491,8 @@ class InputSchemaBuilder(
         field_default = graphql.Undefined if field.required else field.get_default()
         default: Any = graphql.Undefined
         # Don't put `null` default + handle Undefined as None
-        if field_default in {None, Undefined}:
+        # (identity test because default can be unhashable)
+        if field_default is None or field_default is Undefined:
             field_type = Optional[field_type]
         elif field_default is not graphql.Undefined:
             try:
@@ -661,11 +662,15 @@ class OutputSchemaBuilder(
                     pass
                 # Don't put `null` default + handle Undefined as None
                 # also https://github.com/python/typing/issues/775
-                elif param.default in {None, Undefined}:
+                # (identity tests because default can be unhashable)
+                elif param.default is None or param.default is Undefined:
                     param_type = Optional[param_type]
                 # param.default == graphql.Undefined means the parameter is required
                 # even if it has a default
-                elif param.default not in {Parameter.empty, graphql.Undefined}:
+                elif (
+                    param.default is not Parameter.empty
+                    and param.default is not graphql.Undefined
+                ):
                     try:
                         default = serialize(
                             param_type,
